@@ -6,9 +6,10 @@ NOTE = ("_ical_push/_ical_pull/esccpy executed symbolically on N fully symbolic 
 ASSUMPTIONS = ["_ical_proc depends only on (parser state, completed line): it is replaced by an injective line recorder at its call sites",
                "inputs of N bytes, two chunks; longer inputs and three or more chunks are outside the claim"]
 def ob(n, split, **kw):
+    kw.setdefault('mem_gb', 4)
     o = dict(name='n%d_split%d' % (n, split), src='h_pull.c', defs=['N=%d' % n, 'SPLIT=%d' % split, 'ECHSE_VERIF_STASH=16U'], units=[],
              incl=['src/evical.c'], replay_units='all', unwind=n + 1, unwindset={'harness.*': 19, 'esccpy_w.*': 19, 'rec_proc.*': 10},
-             solver='minisat', slice_formula=True, timeout=900, mem_gb=12, checks=['--bounds-check', '--pointer-check'], extra=['--max-field-sensitivity-array-size', '8'],
+             solver='minisat', slice_formula=True, timeout=800, mem_gb=3, checks=['--bounds-check', '--pointer-check'], extra=['--max-field-sensitivity-array-size', '8'],
              replace_calls={'esccpy': 'esccpy_w'}, replace_calls2={'esccpy_real': 'esccpy'}, excludes=['C10-1', 'C10-2', 'C10-3', 'C10-4'],
              enc=['_ical_push', '_ical_pull', 'esccpy'], sym='all %d input bytes' % n, bounds='%d bytes, split after byte %d vs one chunk' % (n, split),
              outside='inputs longer than %d bytes; more than two chunks; the component state machine itself' % n,
@@ -17,14 +18,14 @@ def ob(n, split, **kw):
     return o
 OBLIGATIONS = [ob(2, 1), ob(3, 1), ob(3, 2),
                ob(3, 1, name='kf_escape_split', expect='kf', kf='C10-1', witness=False), ob(3, 1, name='kf_fold_split', expect='kf', kf='C10-2', witness=False)] + \
-    [ob(4, k, timeout=1200, mem_gb=8) for k in (1, 2, 3)] + \
-    [ob(4, 2, defs=['N=4', 'SPLIT=2', 'ECHSE_VERIF_STASH=3U', 'SAFETY_ONLY'], name='overlong_n4_split2_stash3', timeout=1200, mem_gb=8, excludes=[],
+    [ob(4, k, timeout=800, mem_gb=3) for k in (1, 2, 3)] + \
+    [ob(4, 2, defs=['N=4', 'SPLIT=2', 'ECHSE_VERIF_STASH=3U', 'SAFETY_ONLY'], name='overlong_n4_split2_stash3', timeout=800, mem_gb=3, excludes=[],
         bounds='4 bytes against a line stash of 3: the over-long-line paths; memory safety and termination only')] + \
     [ob(5, 2, defs=['N=5', 'SPLIT=2', 'ECHSE_VERIF_STASH=3U', 'SAFETY_ONLY'], name='overlong_n5_split2_stash3', tiers=('thorough',), timeout=3000, mem_gb=16, excludes=[],
         bounds='5 bytes against a line stash of 3; memory safety and termination only')] + \
-    [ob(4, a, name='n4_split%d_%d' % (a, b), defs=['N=4', 'SPLIT=%d' % a, 'SPLIT2=%d' % b, 'ECHSE_VERIF_STASH=16U'], timeout=1500, mem_gb=10, bounds='4 bytes in three chunks cut after bytes %d and %d vs one chunk' % (a, b)) for a, b in ((1, 2), (1, 3), (2, 3))] + \
-    [ob(5, a, name='n5_split%d_%d' % (a, b), defs=['N=5', 'SPLIT=%d' % a, 'SPLIT2=%d' % b, 'ECHSE_VERIF_STASH=16U'], timeout=3000, mem_gb=16, tiers=('thorough',), bounds='5 bytes in three chunks cut after bytes %d and %d vs one chunk' % (a, b)) for a, b in ((1, 3), (2, 3), (2, 4), (1, 2), (3, 4), (1, 4))] + \
-    [ob(5, k, tiers=('thorough',), timeout=3000, mem_gb=16) for k in (1, 2, 3, 4)] + \
+    [ob(4, a, name='n4_split%d_%d' % (a, b), defs=['N=4', 'SPLIT=%d' % a, 'SPLIT2=%d' % b, 'ECHSE_VERIF_STASH=16U'], timeout=800, mem_gb=3, bounds='4 bytes in three chunks cut after bytes %d and %d vs one chunk' % (a, b)) for a, b in ((1, 2), (1, 3), (2, 3))] + \
+    [ob(5, a, name='n5_split%d_%d' % (a, b), defs=['N=5', 'SPLIT=%d' % a, 'SPLIT2=%d' % b, 'ECHSE_VERIF_STASH=16U'], timeout=800, mem_gb=4, bounds='5 bytes in three chunks cut after bytes %d and %d vs one chunk' % (a, b)) for a, b in ((1, 3), (2, 3), (2, 4), (1, 2), (3, 4), (1, 4))] + \
+    [ob(5, k, timeout=800, mem_gb=4) for k in (1, 2, 3, 4)] + \
     [ob(6, 3, tiers=('thorough',), timeout=3400, mem_gb=24)] + \
     [ob(3, k, defs=['N=3', 'SPLIT=%d' % k, 'ECHSE_VERIF_STASH=16U', 'EMIT'], name='n3_split%d_emit' % k, tiers=('thorough',), timeout=3000, mem_gb=30) for k in (1, 2)] + \
     [ob(4, 2, defs=['N=4', 'SPLIT=2', 'ECHSE_VERIF_STASH=16U', 'EMIT'], name='n4_split2_emit', tiers=('thorough',), timeout=3000, mem_gb=30)]
